@@ -629,9 +629,10 @@ func parentMain(run *fw.Run, self, tmp string) func() {
 			if st, err := os.Stat(c.out + ".dig"); err == nil {
 				done = st.Size() / 8
 			}
+			at := sp.nextWord(min64(done, sp.total-1))
 			run.Violation("hang:no-progress-for-"+stallWatchdog.String(),
-				fmt.Sprintf("environment %s: no word finished for %v after index %d (%s); words of the stalled chunk start at %v", c.env.id, stallWatchdog, done, c.killed, sp.names(sp.word(min64(done, sp.total-1), nil))),
-				replayCase{c.env.id, sp.names(sp.word(min64(done, sp.total-1), nil)), run.Tier})
+				fmt.Sprintf("environment %s: no word finished for %v after index %d (%s); words of the stalled chunk start at %v", c.env.id, stallWatchdog, done, c.killed, sp.names(at)),
+				replayCase{c.env.id, sp.names(at), run.Tier})
 			outcomes.Inc("hang")
 			common = 0
 			continue
@@ -711,7 +712,7 @@ func parentMain(run *fw.Run, self, tmp string) func() {
 		if vsModel > 0 && run.Violations() == 0 {
 			run.Violation("digest:differs-from-model-without-in-process-diagnosis",
 				fmt.Sprintf("%d per-word digests differ from the model digest (first at index %d) although no child diagnosed a deviation", vsModel, firstBad),
-				replayCase{"E0", sp.names(sp.word(firstBad, nil)), run.Tier})
+				replayCase{"E0", sp.names(sp.nextWord(firstBad)), run.Tier})
 		}
 		for i := int64(0); i < common; i += common/11 + 1 {
 			if w := sp.word(i, nil); w != nil {
@@ -736,8 +737,8 @@ func parentMain(run *fw.Run, self, tmp string) func() {
 	return func() {
 		run.Finish(fw.Coverage{
 			Evaluations: evaluations, DistinctNontriv: words,
-			Rule: "evaluation = one fresh default-configured instance executing one word (every word runs in 3 host environments x 2 engines x 2 simultaneously live instances); distinct = canonical words of maximal length (letters after proc_exit are not spelled out; every proper prefix is covered by the per-step trace of its extensions); all are non-trivial (each performs >=1 WASI call whose errno and memory window are compared)",
-			Samples:     samples.List(), Exhaustive: true, Outcomes: om,
+			Rule:    "evaluation = one fresh default-configured instance executing one word (every word runs in 3 host environments x 2 engines x 2 simultaneously live instances); distinct = canonical words of maximal length (letters after proc_exit are not spelled out; every proper prefix is covered by the per-step trace of its extensions); all are non-trivial (each performs >=1 WASI call whose errno and memory window are compared); distinct_traces counts how many of them are observationally different",
+			Samples: samples.List(), Exhaustive: true, Outcomes: om,
 			Bounds: map[string]any{"wasi_functions": len(wasiFns), "letters": len(sp.alpha), "families": fams, "indices": sp.total,
 				"window_bytes": winSize, "environments": len(cs), "engines": 2, "instances_per_engine": 2},
 			Extra: map[string]any{"environments": perEnv, "wasi_calls_traced": steps, "distinct_traces": distinct,
@@ -747,7 +748,7 @@ func parentMain(run *fw.Run, self, tmp string) func() {
 			"the model's constants were read from internal/sys/sys.go, internal/sys/stdio.go, internal/platform/time.go and crypto.go; the random stream is math/rand seeded with 42 consumed through (*rand.Rand).Read (Go standard library, trusted)",
 			"outcomes the statement does not fix (errno of unsupported operations on stdio descriptors, their reported file type, argument-check order) were calibrated against the unchanged tree; they depend on model state only",
 			"\"different wall-clock times\" is exercised only by starting the child processes 1.2 s apart; the kernel clock cannot be faked for a static Go binary",
-			"real sleep is detected by a 30 s watchdog on a call that requests one hour and takes microseconds when the property holds",
+			"real sleep is detected by a 45 s watchdog on a call that requests one hour and takes microseconds when the property holds; a child in which no word at all finishes for 120 s is reported as a hang",
 			"fd_filestat_set_times on an open stdio descriptor is excluded from the alphabet (see NOTES.md)",
 		})
 	}
